@@ -1,2 +1,279 @@
+//! impl -> spec at scale: seeded random histories with rich values (boundary integers, empty /
+//! shared / non-ASCII / very long strings, all 26 code pages, three package types, every way of
+//! closing, crash after flush, invalid calls), every call logged with the fully observed state
+//! for Trace_Msi.tla.  The generator knows schemas only to produce plausible arguments; it
+//! computes no expected result: TLC is the oracle.
+use crate::codec::ref_encode;
+use crate::j::cps;
+use crate::rnd::Rng;
+use crate::session::Session;
+use crate::walk::log_state;
 use crate::Args;
-pub fn main(_args: &Args) -> i32 { 0 }
+use serde_json::{json, Value as J};
+use std::io::Write;
+
+const PAGES: [i64; 26] = [932, 936, 949, 950, 951, 1250, 1251, 1252, 1253, 1254, 1255, 1256, 1257, 1258, 10000, 10007, 20127, 28591, 28592, 28593, 28594, 28595, 28596, 28597, 28598, 65001];
+const INTS16: [i64; 9] = [0, 1, -1, 2, 7, 32767, -32767, 100, -100];
+const INTS32: [i64; 11] = [0, 1, -1, 2, 32767, 32768, -32768, 65536, 2147483647, -2147483647, 123456];
+const CANDS: &str = "abXYZ09 _.\u{e9}\u{df}\u{f1}\u{416}\u{3b1}\u{5d0}\u{627}\u{3042}\u{4e2d}\u{d55c}\u{20ac}\u{142}\u{11f}";
+
+#[derive(Clone)]
+struct ColG {
+    name: String,
+    ty: &'static str,
+    width: u64,
+    nullable: bool,
+    key: bool,
+    cat: Option<&'static str>,
+    loc: bool,
+}
+#[derive(Clone)]
+struct TabG {
+    name: String,
+    cols: Vec<ColG>,
+}
+
+fn col_json(c: &ColG) -> J {
+    json!({"name": cps(&c.name), "type": c.ty, "width": c.width, "nullable": c.nullable, "key": c.key, "loc": c.loc,
+           "range": [], "fk": [], "cat": match c.cat { Some(x) => cps(x), None => json!([]) }, "enum": []})
+}
+
+struct Gen {
+    rng: Rng,
+    tabs: Vec<TabG>,
+    cp: i64,
+    strings: Vec<String>, // strings used so far (to share them between cells and tables)
+    next_tab: u32,
+    streams: Vec<String>,
+}
+
+impl Gen {
+    fn repertoire(&self) -> Vec<char> {
+        CANDS.chars().filter(|c| ref_encode(self.cp, &c.to_string()).map(|b| b != b"?").unwrap_or(false)).collect()
+    }
+    fn string(&mut self, ident: bool, maxw: u64) -> String {
+        if !ident && !self.strings.is_empty() && self.rng.chance(1, 3) {
+            let s = self.rng.pick(&self.strings).clone();
+            if maxw == 0 || (s.chars().count() as u64) <= maxw {
+                return s;
+            }
+        }
+        let s: String = if ident {
+            let n = 1 + self.rng.below(5);
+            (0..n).map(|k| if k == 0 { *self.rng.pick(&['a', 'B', '_', 'T']) } else { *self.rng.pick(&['a', 'b', '1', '_', '.', 'Z']) }).collect()
+        } else {
+            let rep = self.repertoire();
+            let n = match self.rng.below(10) {
+                0 => 0,
+                1 => 1,
+                _ => 1 + self.rng.below(6),
+            };
+            let n = if maxw > 0 { n.min(maxw) } else { n };
+            (0..n).map(|_| *self.rng.pick(&rep)).collect()
+        };
+        if !s.is_empty() && self.strings.len() < 12 {
+            self.strings.push(s.clone());
+        }
+        s
+    }
+    fn value(&mut self, c: &ColG, valid: bool) -> J {
+        if !valid {
+            return match self.rng.below(4) {
+                0 => if c.ty == "s" { json!({"i": 5}) } else { json!({"s": cps("x")}) },
+                1 => if c.nullable { json!({"i": if c.ty == "s" { 1 } else { 40000 + (c.ty == "i32") as i64 * 4294967295i64.min(0) } }) } else { json!({"n": 0}) },
+                2 => if c.ty == "i16" { json!({"i": 32768}) } else if c.ty == "i32" { json!({"i": -2147483648i64}) } else if c.width > 0 { json!({"s": cps(&"w".repeat(c.width as usize + 1))}) } else { json!({"i": 0}) },
+                _ => if c.cat == Some("Identifier") { json!({"s": cps("9 bad")}) } else if c.ty == "s" { json!({"i": 0}) } else { json!({"s": cps("nope")}) },
+            };
+        }
+        if c.nullable && self.rng.chance(1, 5) {
+            return json!({"n": 0});
+        }
+        match c.ty {
+            "i16" => json!({"i": *self.rng.pick(&INTS16)}),
+            "i32" => json!({"i": *self.rng.pick(&INTS32)}),
+            _ => {
+                let s = self.string(c.cat == Some("Identifier"), c.width);
+                json!({"s": cps(&s)})
+            }
+        }
+    }
+    fn new_table(&mut self) -> (J, TabG) {
+        self.next_tab += 1;
+        let name = format!("T{}", self.next_tab);
+        let n = match self.rng.below(8) {
+            0 => 1,
+            7 => 6 + self.rng.below(4) as usize,
+            _ => 2 + self.rng.below(3) as usize,
+        };
+        let mut cols = Vec::new();
+        let keyed = self.rng.below(n as u64) as usize;
+        let second_key = if self.rng.chance(1, 3) { Some(self.rng.below(n as u64) as usize) } else { None };
+        for k in 0..n {
+            let ty = *self.rng.pick(&["i16", "i32", "s", "s"]);
+            let key = k == keyed || Some(k) == second_key;
+            let (width, cat) = if ty == "s" {
+                (*self.rng.pick(&[0u64, 0, 4, 8, 255]), *self.rng.pick(&[None, None, Some("Text"), Some("Identifier")]))
+            } else {
+                (0, None)
+            };
+            cols.push(ColG { name: format!("C{}", k + 1), ty, width, nullable: if key { self.rng.chance(1, 4) } else { self.rng.chance(2, 3) }, key, cat, loc: ty == "s" && self.rng.chance(1, 4) });
+        }
+        let t = TabG { name: name.clone(), cols: cols.clone() };
+        (json!({"op": "CreateTable", "args": {"table": cps(&name), "cols": cols.iter().map(col_json).collect::<Vec<_>>()}}), t)
+    }
+    fn cond(&mut self, t: &TabG, depth: u32) -> J {
+        // operators that cannot overflow; literals of the right kind for the column
+        if depth == 0 || self.rng.chance(1, 3) {
+            let c = self.rng.pick(&t.cols).clone();
+            let v = self.value(&c, true);
+            let op = *self.rng.pick(&["eq", "ne", "lt", "le", "gt", "ge"]);
+            return json!({"bin": op, "l": {"col": cps(&c.name)}, "r": {"lit": v}});
+        }
+        match self.rng.below(4) {
+            0 => json!({"un": "not", "a": self.cond(t, depth - 1)}),
+            1 => json!({"bin": "and", "l": self.cond(t, depth - 1), "r": self.cond(t, depth - 1)}),
+            2 => json!({"bin": "or", "l": self.cond(t, depth - 1), "r": self.cond(t, depth - 1)}),
+            _ => {
+                let c = self.rng.pick(&t.cols).clone();
+                json!({"col": cps(&c.name)})
+            }
+        }
+    }
+    fn row(&mut self, t: &TabG, valid: bool) -> J {
+        let bad = if valid { usize::MAX } else { self.rng.below(t.cols.len() as u64) as usize };
+        let cols = t.cols.clone();
+        J::Array(cols.iter().enumerate().map(|(k, c)| self.value(c, k != bad)).collect())
+    }
+    /// can every live string (strings handed out so far) be represented in code page `cp`?
+    fn fits(&self, cp: i64) -> bool {
+        self.strings.iter().all(|s| s.chars().all(|c| ref_encode(cp, &c.to_string()).map(|b| b != b"?").unwrap_or(false)))
+    }
+    fn event(&mut self, open: bool, last_flush_ok: bool) -> J {
+        if !open {
+            return json!({"op": "Reopen", "args": {"x": 0}});
+        }
+        let r = self.rng.below(100);
+        let tru = json!({"lit": {"i": 1}});
+        if self.tabs.is_empty() || r < 8 {
+            let (e, t) = self.new_table();
+            self.tabs.push(t);
+            return e;
+        }
+        let ti = self.rng.below(self.tabs.len() as u64) as usize;
+        let t = self.tabs[ti].clone();
+        if r < 40 {
+            let n = 1 + self.rng.below(3);
+            let invalid = self.rng.chance(1, 6);
+            let rows: Vec<J> = (0..n).map(|k| self.row(&t, !(invalid && k == n - 1))).collect();
+            let rows = if self.rng.chance(1, 12) { vec![json!([{"i": 1}])] } else { rows };
+            json!({"op": "Insert", "args": {"table": cps(&t.name), "rows": rows}})
+        } else if r < 55 {
+            let k = 1 + self.rng.below(2) as usize;
+            let mut sets = Vec::new();
+            let mut used = Vec::new();
+            for _ in 0..k {
+                let c = self.rng.pick(&t.cols).clone();
+                if used.contains(&c.name) {
+                    continue;
+                }
+                used.push(c.name.clone());
+                let ok = !self.rng.chance(1, 8);
+                let v = self.value(&c, ok);
+                sets.push(json!([cps(&c.name), v]));
+            }
+            let cond = if self.rng.chance(1, 3) { tru } else { self.cond(&t, 2) };
+            json!({"op": "Update", "args": {"table": cps(if self.rng.chance(1, 20) { "Nope" } else { &t.name }), "sets": sets, "cond": cond}})
+        } else if r < 65 {
+            let cond = if self.rng.chance(1, 4) { tru } else { self.cond(&t, 2) };
+            json!({"op": "Delete", "args": {"table": cps(&t.name), "cond": cond}})
+        } else if r < 69 {
+            if self.rng.chance(1, 2) {
+                self.tabs.remove(ti);
+            }
+            json!({"op": "DropTable", "args": {"table": cps(&t.name)}})
+        } else if r < 74 {
+            let cands: Vec<i64> = PAGES.iter().cloned().filter(|p| self.fits(*p)).collect();
+            let cp = *self.rng.pick(&cands);
+            self.cp = cp;
+            json!({"op": "SetCodepage", "args": {"cp": cp}})
+        } else if r < 80 {
+            let f = *self.rng.pick(&["author", "comments", "subject", "title", "word_count"]);
+            let v = if self.rng.chance(1, 4) { json!({"absent": 0}) } else if f == "word_count" { json!({"i": self.rng.below(5)}) } else { json!({"s": cps(&format!("v{}", self.rng.below(9)))}) };
+            json!({"op": "SetSummary", "args": {"field": f, "value": v}})
+        } else if r < 86 {
+            let n = format!("s{}", self.rng.below(3));
+            if self.rng.chance(1, 3) {
+                self.streams.retain(|x| x != &n);
+                json!({"op": "RemoveStream", "args": {"name": cps(&n)}})
+            } else {
+                if !self.streams.contains(&n) { self.streams.push(n.clone()); }
+                let d = *self.rng.pick(&["b", "b0102", "g100_3", "g5000_4"]);
+                json!({"op": "WriteStream", "args": {"name": cps(&n), "data": d}})
+            }
+        } else if r < 91 {
+            json!({"op": "Flush", "args": {"x": 0}})
+        } else if r < 94 && last_flush_ok {
+            json!({"op": "Crash", "args": {"x": 0}})
+        } else if r < 97 {
+            json!({"op": "IntoInner", "args": {"x": 0}})
+        } else {
+            json!({"op": "DropPkg", "args": {"x": 0}})
+        }
+    }
+}
+
+pub fn main(args: &Args) -> i32 {
+    let seed = args.num("seed", 1);
+    let runs = args.num("runs", 20);
+    let steps = args.num("steps", 30);
+    let long_every = args.num("long-every", 0);
+    let mut out = std::io::BufWriter::new(std::fs::File::create(args.get("trace").expect("--trace")).expect("trace"));
+    let mut nev = 0u64;
+    let mut by_op: std::collections::BTreeMap<String, u64> = Default::default();
+    for run in 0..runs {
+        let mut g = Gen { rng: Rng::new(seed * 1_000_003 + run), tabs: vec![], cp: 65001, strings: vec![], next_tab: 0, streams: vec![] };
+        let mut sess = Session::empty();
+        let pt = ["Installer", "Patch", "Transform"][(run % 3) as usize];
+        let create = json!({"op": "Create", "args": {"ptype": pt}});
+        let r = sess.exec(&create);
+        let _ = writeln!(out, "{}", json!({"op": "Create", "args": {"ptype": pt}, "res": r, "st": log_state(&mut sess)}));
+        let mut last_flush_ok = false;
+        for step in 0..steps {
+            let mut ev = g.event(sess.is_open(), last_flush_ok);
+            if long_every > 0 && (run * steps + step) % long_every == long_every - 1 && sess.is_open() {
+                // a string longer than 64 KiB in an unlimited-width text column of a fresh table
+                let name = format!("L{}", step);
+                let _ = sess.exec(&json!({"op": "CreateTable", "args": {"table": cps(&name), "cols": [col_json(&ColG { name: "K".into(), ty: "i16", width: 0, nullable: false, key: true, cat: None, loc: false }), col_json(&ColG { name: "V".into(), ty: "s", width: 0, nullable: true, key: false, cat: None, loc: false })]}}));
+                let _ = writeln!(out, "{}", json!({"op": "Reset", "args": {"x": 0}, "res": "Ok", "st": log_state(&mut sess)}));
+                ev = json!({"op": "Insert", "args": {"table": cps(&name), "rows": [[{"i": 1}, {"s": cps(&"\u{e9}x".repeat(35000))}]]}});
+                if !ref_encode(g.cp, "\u{e9}").map(|b| b != b"?").unwrap_or(false) {
+                    ev = json!({"op": "Insert", "args": {"table": cps(&name), "rows": [[{"i": 1}, {"s": cps(&"xy".repeat(35000))}]]}});
+                }
+            }
+            let res = sess.exec(&ev);
+            last_flush_ok = ev["op"] == "Flush" && res == "Ok";
+            *by_op.entry(format!("{}:{}", ev["op"].as_str().unwrap_or("?"), res)).or_insert(0) += 1;
+            let mut m = serde_json::Map::new();
+            m.insert("op".into(), ev["op"].clone());
+            m.insert("args".into(), ev["args"].clone());
+            m.insert("res".into(), json!(res));
+            m.insert("st".into(), log_state(&mut sess));
+            let _ = writeln!(out, "{}", J::Object(m));
+            nev += 1;
+            if ev["op"] == "DropTable" && res != "Ok" {
+                // keep the generator's view in step with the package
+            }
+            if long_every > 0 && ev["args"]["rows"][0][1]["s"].as_array().map(|a| a.len()).unwrap_or(0) > 60000 {
+                // drop the long string again soon so that it does not bloat every later event
+                let name = crate::j::from_cps(&ev["args"]["table"]);
+                for e2 in [json!({"op": "Flush", "args": {"x": 0}}), json!({"op": "DropTable", "args": {"table": cps(&name)}})] {
+                    let res = sess.exec(&e2);
+                    let _ = writeln!(out, "{}", json!({"op": e2["op"], "args": e2["args"], "res": res, "st": log_state(&mut sess)}));
+                    nev += 1;
+                }
+            }
+        }
+    }
+    println!("RANDOM {}", json!({"runs": runs, "events": nev, "by_op": by_op}));
+    0
+}
